@@ -130,13 +130,18 @@ def parse_vspec(path):
                 # (including none and line breaks): the same token sequence laid out differently by
                 # rustfmt still matches.  The replacement is one line; the line breaks of the matched
                 # text are re-appended so that the line count is preserved.
-                m = re.match(r'(\S+)\s+(\d+)\s+"(.*)"\s+=>\s+"(.*)"\s*$', rest)
+                m = re.match(r'(\S+)\s+(\d+\??)\s+"(.*)"\s+=>\s+"(.*)"\s*$', rest)
                 if not m:
                     raise SystemExit("%s:%d: bad @@rewrite_ws" % (path, ln))
+                wantws = m.group(2)
+                if wantws.endswith("?"):
+                    if m.group(1) not in ("R28",):
+                        raise SystemExit("%s:%d: optional count only allowed for R28 here" % (path, ln))
+                    wantws = -int(wantws[:-1])
                 pat = m.group(3).replace('\\"', '"')
                 # (comments between the tokens count as whitespace)
                 rx = "(?:\\s|//[^\\n]*\\n)*".join(re.escape(tok) for tok in pat.split(" "))
-                cur_item.rewrites.append((m.group(1), int(m.group(2)), re.compile(rx), m.group(4).replace('\\"', '"'), ln))
+                cur_item.rewrites.append((m.group(1), int(wantws), re.compile(rx), m.group(4).replace('\\"', '"'), ln))
             elif key == "rewrite":
                 m = re.match(r'(\S+)\s+(\d+\??|\*)\s+"(.*)"\s+=>\s+"(.*)"\s*$', rest)
                 if not m:
@@ -155,8 +160,9 @@ def parse_vspec(path):
                     # *text* -> opaque value): when the text is gone there is nothing to make opaque.
                     # ... and for R29 (a dependency call -> helper with the dependency's assumed contract):
                     # when the call is gone there is nothing to replace and the body is verified as it stands
-                    if m.group(1) not in ("R5", "R29"):
-                        raise SystemExit("%s:%d: optional count only allowed for R5 / R29" % (path, ln))
+                    # ... and for R28 (two spellings of the same std adapter chain, of which one is present)
+                    if m.group(1) not in ("R5", "R28", "R29"):
+                        raise SystemExit("%s:%d: optional count only allowed for R5 / R28 / R29" % (path, ln))
                     want = -int(want[:-1])
                 # `<NL>` stands for a line break (a rewrite may span lines; it must keep their number)
                 cur_item.rewrites.append((m.group(1), int(want), m.group(3).replace('\\"', '"').replace("<NL>", "\n"),
